@@ -355,6 +355,92 @@ def client_forgery_case(exe, it, run, stats):
             w.close(kill=True)
 
 
+def pending_forgery_case(exe, it, run, stats):
+    """a forged message that names a request still in flight: the client's first datagram is
+    lost, and before the retransmission a datagram arrives from the server's address with the
+    request's message id and token (both readable off the wire), an OSCORE option of the
+    forger's choosing and junk ciphertext.  It fails authentication and must leave no trace:
+    the request is retransmitted, answered and handed to the response handler once, and the
+    next Confirmable request on the session goes out and is answered too"""
+    r = common.rng("c15p-%d" % it)
+    c = mkctx(r)
+    w = world.World(exe, seed=r.getrandbits(30), cmd_timeout=20)
+    sim = world.Sim(w, latency=1)
+    witness = {"item": it, "seed": common.seed(), "kind": "pending-forgery", "script": w.script}
+    try:
+        sim.add_node(0, block_mode=1)
+        sim.add_node(1, block_mode=1)
+        sim.cmd("oscore_server 1 %s" % conf_text(c["secret"], c["salt"], c["server_id"],
+                                                 c["client_id"], c["idctx"], False, 32))
+        sim.cmd("ep 1 udp %s" % SERVER)
+        sim.cmd("res 1 %s body=fixed:%s" % (b"r".hex(), b"hello".hex()))
+        sim.cmd("sess 0 0 udp %s oscore=%s start_seq=%d" % (
+            SERVER, conf_text(c["secret"], c["salt"], c["client_id"], c["server_id"], c["idctx"],
+                              False, 32), r.choice([0, 5, 300])))
+        client_addr = [e["local"] for e in sim.log if e["e"] == "sess" and e.get("ok")][0]
+        # a first exchange, undisturbed (the session leaves its start-up state)
+        sim.cmd("send 0 0 type=0 code=1 token=e0 opts=11=72")
+        sim.run(until=sim.elapsed() + 300, quiesce=False)
+        if not any(e["e"] == "rsp" and e.get("n") == 0 and e["tok"] == "e0" for e in sim.log):
+            raise common.Inconclusive("undisturbed OSCORE exchange did not complete")
+        dropped = [0]
+
+        def fault(sm, i, ev):
+            if ev["from"] == client_addr and not dropped[0]:
+                dropped[0] = 1
+                return []
+            return None
+        sim.fault = fault
+        mark = len(sim.log)
+        tok = "e1%02x" % (it & 255)
+        sim.cmd("send 0 0 type=0 code=%d token=%s opts=11=72" % (r.choice([1, 1, 2]), tok))
+        reqw = [e for e in sim.log[mark:] if e["e"] == "wire" and e["from"] == client_addr]
+        if not reqw:
+            raise common.Inconclusive("request not written")
+        outer = cw.decode(bytes.fromhex(reqw[0]["b"]), "udp")
+        piv = r.choice([None, b"\x00", b"\x7f", b"\xff\xff\xff\xff\xff"])
+        ov = b"" if piv is None else bytes([len(piv)]) + piv
+        f = cw.msg(r.choice([0x45, 0x44, 0x84, 0x45]), type=r.choice([2, 2, 2, 0, 1, 3]),
+                   mid=outer["mid"], token=outer["token"], options=[(9, ov)],
+                   payload=bytes(r.getrandbits(8) for _ in range(r.choice([0, 3, 9, 20]))))
+        if f["type"] == 3:
+            f = None          # (a Reset with that id ends the exchange by rule: not a forgery case)
+        if f is not None:
+            sim.inject(SERVER, client_addr, cw.encode(f, "udp"), r.choice([1, 50, 900]))
+            stats["forgeries_naming_a_pending_request"] = \
+                stats.get("forgeries_naming_a_pending_request", 0) + 1
+        sim.run(until=sim.elapsed() + 120000, quiesce=False)
+        got = [e for e in sim.log[mark:] if e["e"] == "rsp" and e.get("n") == 0 and e["tok"] == tok]
+        nack = [e for e in sim.log[mark:] if e["e"] == "nack" and e.get("n") == 0 and
+                e.get("tok") == tok]
+        bad = None
+        if f is not None and any(e.get("phex") != b"hello".hex() for e in got):
+            run.violation("forgery-accepted/client-response", witness,
+                          "a forged response naming a pending request reached the handler")
+        if len(got) != 1 and not nack:
+            bad = "the request in flight got %d responses and no NACK in 120 s" % len(got)
+        # the session must still be usable: NSTART slot free, sequence state intact
+        mark2 = len(sim.log)
+        sim.cmd("send 0 0 type=0 code=1 token=e2 opts=11=72")
+        sim.run(until=sim.elapsed() + 120000, quiesce=False)
+        if bad is None and not any(e["e"] == "rsp" and e.get("n") == 0 and e["tok"] == "e2"
+                                   for e in sim.log[mark2:]):
+            bad = "the next Confirmable request on the session was never answered"
+        if bad and f is not None:
+            run.violation("forgery-left-a-trace/pending-request", witness,
+                          "forged %s with the message id of a request in flight: %s" %
+                          (["CON", "NON", "ACK", "RST"][f["type"]], bad))
+        elif bad:
+            run.violation("request-without-forgery-not-concluded", witness, bad)
+        world.teardown_check(run, "C15", w, witness)
+        return ("pending-forgery", None if f is None else f["type"], piv is None)
+    except world.WorldCrash as e:
+        world.crash_violation(run, "C15", e, witness)
+    finally:
+        if not w.closed:
+            w.close(kill=True)
+
+
 def reversal_case(exe, it, run, stats):
     """one security context in both roles: a node that has an OSCORE client session AND serves a
     resource on it (RFC 7252 lets the peer of a session send requests too).  The peer's
@@ -519,6 +605,8 @@ def work(job):
                 sigs.add(client_forgery_case(exe, it, run, stats))
             elif kind == "role-reversal":
                 sigs.add(reversal_case(exe, it, run, stats))
+            elif kind == "pending-forgery":
+                sigs.add(pending_forgery_case(exe, it, run, stats))
             else:
                 sigs.add(sender_case(exe, it, run, stats))
         except world.WorldCrash as e:
@@ -556,6 +644,8 @@ def main(tier):
     jobs += [("client-forgery", list(range(i, min(ncli, i + chunk))), exe)
              for i in range(0, ncli, chunk)]
     jobs += [("role-reversal", list(range(i, min(ncli, i + chunk))), exe)
+             for i in range(0, ncli, chunk)]
+    jobs += [("pending-forgery", list(range(i, min(ncli, i + chunk))), exe)
              for i in range(0, ncli, chunk)]
     stats = {}
     for n, sigs, vios, st in common.parallel_map(work, jobs):
